@@ -194,10 +194,30 @@ pub fn install_panic_hook() {
 // ------------------------------------------------------------------------------------------
 // watchdog: a library call that does not return is a violation, not a hung check.
 
-static WD_SLOTS: Mutex<Vec<(u64, Instant, String)>> = Mutex::new(Vec::new());
+static WD_SLOTS: Mutex<Vec<(u64, std::sync::Arc<AtomicU64>, String)>> = Mutex::new(Vec::new());
+static WD_EPOCH: std::sync::OnceLock<Instant> = std::sync::OnceLock::new();
+
+fn wd_now() -> u64 {
+    WD_EPOCH.get_or_init(Instant::now).elapsed().as_millis() as u64
+}
+
+thread_local! {
+    static WD_CUR: std::cell::RefCell<Option<std::sync::Arc<AtomicU64>>> = std::cell::RefCell::new(None);
+}
+
+/// Progress signal from inside a long unit of work (one per explored state / driver step): the
+/// watchdog measures the time since the last heartbeat, so a single library call that does not
+/// return is noticed within the limit even inside an exploration that runs for minutes.
+pub fn heartbeat() {
+    WD_CUR.with(|c| {
+        if let Some(a) = &*c.borrow() {
+            a.store(wd_now(), Ordering::Relaxed);
+        }
+    });
+}
 static WD_NEXT: AtomicU64 = AtomicU64::new(1);
 static WD_ON: AtomicBool = AtomicBool::new(false);
-pub static WD_LIMIT_S: AtomicU64 = AtomicU64::new(20);
+pub static WD_LIMIT_S: AtomicU64 = AtomicU64::new(30);
 
 pub struct WdGuard(u64);
 
@@ -207,7 +227,9 @@ pub fn watch(desc: impl FnOnce() -> String) -> WdGuard {
         return WdGuard(0);
     }
     let id = WD_NEXT.fetch_add(1, Ordering::Relaxed);
-    WD_SLOTS.lock().unwrap().push((id, Instant::now(), desc()));
+    let beat = std::sync::Arc::new(AtomicU64::new(wd_now()));
+    WD_CUR.with(|c| *c.borrow_mut() = Some(beat.clone()));
+    WD_SLOTS.lock().unwrap().push((id, beat, desc()));
     WdGuard(id)
 }
 
@@ -230,7 +252,7 @@ pub fn start_watchdog(prop: &'static str) {
         let lim = WD_LIMIT_S.load(Ordering::Relaxed);
         let s = WD_SLOTS.lock().unwrap();
         for (_, t, d) in s.iter() {
-            if t.elapsed() > Duration::from_secs(lim) {
+            if wd_now().saturating_sub(t.load(Ordering::Relaxed)) > lim * 1000 {
                 let root = std::env::var("VERIF_OUT").unwrap_or_else(|_| "/verif".to_string());
                 let path = format!("{}/replays/{}-hang.json", root, prop);
                 let _ = std::fs::create_dir_all(format!("{}/replays", root));
@@ -238,12 +260,12 @@ pub fn start_watchdog(prop: &'static str) {
                     &path,
                     serde_json::to_string_pretty(&json!({
                         "property": prop, "kind": "hang",
-                        "what": format!("unit of work did not finish within {} s (hang / livelock inside a library call or driver loop)", lim),
+                        "what": format!("no progress for {} s inside this unit of work (a library call did not return, or a driver loop spins)", lim),
                         "unit": d,
                     }))
                     .unwrap(),
                 );
-                println!("hang: unit of work did not return within {} s: {}", lim, d);
+                println!("hang: no progress for {} s in: {}", lim, d);
                 println!("VIOLATION property={} replay={}", prop, path);
                 std::process::exit(1);
             }
@@ -391,6 +413,7 @@ pub fn explore<S: Sys>(init: S, lim: &Limits) -> Explored<S> {
 
     while let Some((idx, st)) = if lim.dfs { queue.pop_back() } else { queue.pop_front() } {
         out.states += 1;
+        heartbeat();
         let depth = nodes[idx as usize].depth;
         out.max_depth = out.max_depth.max(depth as u64);
 
@@ -460,6 +483,7 @@ pub fn explore<S: Sys>(init: S, lim: &Limits) -> Explored<S> {
         }
 
         for a in acts {
+            heartbeat();
             let mut nx = st.clone();
             out.transitions += 1;
             let r = guarded(|| nx.step(&a));
